@@ -184,6 +184,15 @@ class Report:
             if not any(not no_input for _, _, no_input in self.violations):
                 print(f"check {self.prop}: machinery failure ({len(self.engine_errors)}), nothing is reported")
                 return 3
+        seen_und = set()
+        for d in self.downgraded:
+            k = (d.get("function"), tuple(d.get("reason") or ())[:1])
+            if k in seen_und:
+                continue
+            seen_und.add(k)
+            # an obligation that could not be generated from the current source is undecided - neither held nor violated;
+            # the bounded companion of the same function (if any) still ran and is reported on its own
+            print(f"UNDECIDED: property={self.prop} function={d.get('function')} obligations not generated: {'; '.join(map(str, (d.get('reason') or [])[:2]))[:200]}")
         for path, name, no_input in self.violations:
             print(f"VIOLATION property={self.prop} replay={path}" + (" no-failing-input-found" if no_input else ""))
         print(f"check {self.prop} [{self.tier}]: obligations={nob} discharged={ndis} bounded_checks={len(self.bounded)} "
